@@ -108,6 +108,8 @@ class HouseholderSequence(Transform):
         Returns:
             A Tensor of shape [D, D].
         """
-        identity = torch.eye(self.features, self.features)
+        identity = torch.eye(
+            self.features, self.features, dtype=self.q_vectors.dtype, device=self.q_vectors.device
+        )
         outputs, _ = self.inverse(identity)
         return outputs
